@@ -1,8 +1,7 @@
 // Nested integer arrays: the only data format exchanged between the case
 // generators, the Rust harnesses and the Coq models.
 //   val ::= integer | '[' val (',' val)* ']' | '[' ']'
-// Shared by every harness through #[path].
-#![allow(dead_code)]
+// Shared by every harness: `#[allow(dead_code)] mod val { include!(concat!(env!("VERIF_HX_DIR"), "/common/val.rs")); }`
 
 #[derive(Clone, Debug, PartialEq, Eq)]
 pub(crate) enum Val {
